@@ -16,27 +16,90 @@ plain forms:   L Q 6 I 1 h -> int     b -> bool     O -> None | bool     S # @ -
 """
 from __future__ import annotations
 
+import gc
 import io
+import os
+import signal
 
 from .txwire import abs_tx, build_tx, expand, limbs, network, num, project_tx, rle, seq
 
-SYM = "BTC"
+SYM = "BTC"            # the network the calls below go to (set by check_msg_record / record_traces; single-threaded)
 NLIMBS = {"L": 2, "Q": 4, "6": 3, "I": 4}
+# messages that carry headers / blocks / transactions: their objects are per-network classes
+CARRIERS = ("headers", "block", "merkleblock", "cmpctblock", "tx", "blocktxn")
 
 
 def N():
     return network(SYM)
 
 
-_STREAMER = []
+def use(sym):
+    global SYM
+    SYM = sym
+
+
+_STREAMER = {}
 
 
 def streamer():
     """the field codecs, built the way pycoin.networks.bitcoinish builds them"""
-    if not _STREAMER:
+    if SYM not in _STREAMER:
         from pycoin.message.make_parser_and_packer import standard_parsing_functions, standard_streamer
-        _STREAMER.append(standard_streamer(standard_parsing_functions(N().block, N().tx)))
-    return _STREAMER[0]
+        _STREAMER[SYM] = standard_streamer(standard_parsing_functions(N().block, N().tx))
+    return _STREAMER[SYM]
+
+
+# ---------------------------------------------------------------- guarded calls into pycoin
+
+CALL_LIMIT_S = float(os.environ.get("VERIF_C16_CALL_S", "20"))
+
+
+class Hang(BaseException):
+    """raised by the alarm inside a library call that does not return (BaseException: library code that
+    catches Exception must not swallow it)"""
+
+
+def _on_alarm(signum, frame):
+    raise Hang()
+
+
+# (message or letter, call) pairs that hung or exhausted memory once: not executed again in this process
+# (every further case of the same pair would cost the full time limit); the first occurrence is the violation
+TRIPPED = set()
+SKIPPED = [0]
+
+
+def guarded(pair, fn, *a, **k):
+    """Run one call into the library.  -> ("ok", value) | ("exc", name, text) | ("skipped",)
+    name is the exception type, or "hang" after CALL_LIMIT_S seconds.  MemoryError (the harness caps the
+    address space) and a hang trip the breaker for `pair`."""
+    if pair in TRIPPED:
+        SKIPPED[0] += 1
+        return ("skipped",)
+    old = signal.signal(signal.SIGALRM, _on_alarm)
+    signal.setitimer(signal.ITIMER_REAL, CALL_LIMIT_S)
+    try:
+        try:
+            v = fn(*a, **k)
+        finally:
+            signal.setitimer(signal.ITIMER_REAL, 0)
+        return ("ok", v)
+    except Hang:
+        TRIPPED.add(pair)
+        gc.collect()
+        return ("exc", "hang", "no result after %g s" % CALL_LIMIT_S)
+    except MemoryError as e:
+        TRIPPED.add(pair)
+        gc.collect()
+        return ("exc", "MemoryError", repr(e)[:200])
+    except Exception as e:
+        return ("exc", type(e).__name__, repr(e)[:300])
+    finally:
+        signal.signal(signal.SIGALRM, old)
+
+
+def exc_what(r):
+    return "hang" if r[1] == "hang" else "exc=" + r[1]
 
 
 def letters(t):
@@ -294,22 +357,55 @@ def first_diff_field(sizes, names, want, got):
 
 # ---------------------------------------------------------------- replay of one message case
 
-def check_msg_record(rec):
-    """Execute one case printed by MC_P2PReplay on pycoin; returns [(key, what, detail)]."""
+def _class_errors(l, o, net):
+    """objects parsed on a network must be instances of THAT network's classes"""
+    if l == "z":
+        return [] if type(o) is net.block else [(type(o).__name__, net.block.__name__)]
+    if l == "T":
+        return [] if type(o) is net.tx else [(type(o).__name__, net.tx.__name__)]
+    if l == "B":
+        out = [] if type(o) is net.block else [(type(o).__name__, net.block.__name__)]
+        for t in getattr(o, "txs", []):
+            out += _class_errors("T", t, net)
+        return out
+    return []
+
+
+def class_errors(t, o, net):
+    arr, ls = letters(t)
+    if not any(l in "zTB" for l in ls):
+        return []
+    try:
+        if not arr:
+            return _class_errors(ls, o, net)
+        out = []
+        for e in o:
+            for l, c in zip(ls, e if len(ls) > 1 else (e,)):
+                out += _class_errors(l, c, net)
+        return out
+    except Exception:
+        return []          # a malformed result is reported by the field comparison
+
+
+def check_msg_record(rec, sym="BTC"):
+    """Execute one case printed by MC_P2PReplay on pycoin's network `sym`; returns [(key, what, detail)]."""
+    use(sym)
     fails = []
     name = rec["name"]
+    tag = "msg" if sym == "BTC" else "msg@" + sym
     fields = seq(rec["fields"])
     names = [f["n"] for f in fields]
     types = [f["t"] for f in fields]
     want_bytes = expand(rec["bytes"])
     pf = fields if rec["parsed"]["same"] else seq(rec["parsed"]["fields"])
     want = [plain_field(f["t"], f["v"]) for f in pf]
-    M = N().message
+    net = N()
+    M = net.message
 
     def fail(call, what, detail=None):
-        fails.append(("C16|msg|%s|%s|%s" % (name, call, what),
-                      "%s(%r, ...): %s" % (call, name, what),
-                      {"call": call, "what": what, "detail": detail,
+        fails.append(("C16|%s|%s|%s|%s" % (tag, name, call, what),
+                      "%s %s(%r, ...): %s" % (sym, call, name, what),
+                      {"call": call, "what": what, "detail": detail, "network": sym,
                        "case": rec if len(repr(rec)) < 300000 else {"name": name, "fields": _short(fields, 3000), "bytes": _short(rec["bytes"], 1500)}}))
 
     # ---- pack (real transactions / blocks, given to the spec as bytes, are built from the abstract form the
@@ -321,31 +417,39 @@ def check_msg_record(rec):
         fail("construct", "exc=" + type(e).__name__, repr(e)[:300])
         kwargs = None
     if kwargs is not None:
-        try:
-            got = M.pack(name, **kwargs)
-        except Exception as e:
-            fail("pack", "exc=" + type(e).__name__, repr(e)[:300])
+        r = guarded((name, "pack"), M.pack, name, **kwargs)
+        if r[0] == "exc":
+            fail("pack", exc_what(r), r[2])
+        elif r[0] == "ok":
+            got = r[1]
     if got is not None and got != want_bytes:
         fail("pack", "bytes-differ|field=" + first_diff_field(seq(rec["sizes"]), names, want_bytes, got),
              {"want": want_bytes[:400].hex(), "got": bytes(got)[:400].hex(), "want_len": len(want_bytes), "got_len": len(got)})
 
     # ---- parse (the spec's bytes, so that a failing pack does not hide the parser)
-    try:
-        d = M.parse(name, want_bytes)
-    except Exception as e:
-        fail("parse", "exc=" + type(e).__name__, repr(e)[:300])
+    r = guarded((name, "parse"), M.parse, name, want_bytes)
+    if r[0] == "exc":
+        fail("parse", exc_what(r), r[2])
+    if r[0] != "ok":
         return fails
+    d = r[1]
     if not isinstance(d, dict):
         fail("parse", "result=" + type(d).__name__)
         return fails
+    ok_fields = True
     for n, t, w in zip(names, types, want):
         if n not in d:
             fail("parse", "field=%s|missing" % n, {"keys": sorted(d)})
+            ok_fields = False
             break
+        ce = class_errors(t, d[n], net)
+        if ce:
+            fail("parse", "field=%s|class=%s|expected=%s" % (n, ce[0][0], ce[0][1]), {"all": ce[:5]})
         try:
             g = proj_field(t, d[n])
         except Unprojectable as e:
             fail("parse", "field=%s|type=%s" % (n, str(e).split(":")[0]), str(e)[:300])
+            ok_fields = False
             break
         if not same(w, g):
             arr, _ = letters(t)
@@ -354,11 +458,20 @@ def check_msg_record(rec):
                 fail("parse", "field=%s|array-%s" % (n, what), {"want": _short(w), "got": _short(g)})
             else:
                 fail("parse", "field=%s|expected=%s|got=%s" % (n, cls(w), cls(g)), {"want": _short(w), "got": _short(g)})
+            ok_fields = False
             break
         if t == "A":       # the helper's text form of an IPv4 address
             v = next(f["v"] for f in pf if f["n"] == n)
             if v.get("v4") and d[n].host() != ".".join(str(x) for x in seq(v["octets"])):
                 fail("parse", "field=%s|host-text" % n, {"want": seq(v["octets"]), "got": d[n].host()})
+    # ---- what was parsed packs to the same bytes again
+    if ok_fields:
+        r = guarded((name, "pack"), M.pack, name, **{n: d[n] for n in names})
+        if r[0] == "exc":
+            fail("repack", exc_what(r), r[2])
+        elif r[0] == "ok" and r[1] != want_bytes:
+            fail("repack", "bytes-differ|field=" + first_diff_field(seq(rec["sizes"]), names, want_bytes, r[1]),
+                 {"want": want_bytes[:400].hex(), "got": bytes(r[1])[:400].hex()})
     # ---- alert: the payload structure the library parses on the way
     inner = seq(rec.get("inner", []))
     if inner:
@@ -382,6 +495,58 @@ def check_msg_record(rec):
     return fails
 
 
+def check_native_headers(sym):
+    """A network whose block class has its own header format (BTG): outside the Bitcoin layouts of the spec, so only
+    what does not depend on the format: a headers message built from the network's own header object parses to
+    objects of that network's class and packs to the same bytes again."""
+    use(sym)
+    fails = []
+    net = N()
+    M = net.message
+
+    def fail(what, detail=None):
+        fails.append(("C16|msg@%s|headers|native|%s" % (sym, what), "%s headers message of its own header class: %s" % (sym, what),
+                      {"network": sym, "detail": detail}))
+    try:
+        import inspect
+        npar = len(inspect.signature(net.block.__init__).parameters) - 1
+        if npar == 6:
+            h = net.block(2, b"\x11" * 32, b"\x22" * 32, 3, 4, 5)
+        else:       # bgold: (version, prev, merkle, timestamp, difficulty, nonce(32 bytes), height, solution)
+            h = net.block(2, b"\x11" * 32, b"\x22" * 32, 3, 4, b"\x33" * 32, 500000, b"\x44" * 100)
+        f = io.BytesIO()
+        h.stream_header(f)
+    except Exception as e:
+        fail("construct|exc=" + type(e).__name__, repr(e)[:300])
+        return fails
+    r = guarded(("headers", "pack"), M.pack, "headers", headers=[(h, 0), (h, 0)])
+    if r[0] != "ok":
+        if r[0] == "exc":
+            fail("pack|" + exc_what(r), r[2])
+        return fails
+    b = r[1]
+    if b != b"\x02" + (f.getvalue() + b"\x00") * 2:
+        fail("pack|bytes-differ")
+    r = guarded(("headers", "parse"), M.parse, "headers", b)
+    if r[0] != "ok":
+        if r[0] == "exc":
+            fail("parse|" + exc_what(r), r[2])
+        return fails
+    try:
+        hs = r[1]["headers"]
+        bad = [type(x[0]).__name__ for x in hs if type(x[0]) is not net.block]
+        if bad or len(hs) != 2:
+            fail("parse|class=%s|expected=%s" % (bad[0] if bad else "?", net.block.__name__))
+        r2 = guarded(("headers", "pack"), M.pack, "headers", headers=hs)
+        if r2[0] == "exc":
+            fail("repack|" + exc_what(r2), r2[2])
+        elif r2[0] == "ok" and r2[1] != b:
+            fail("repack|bytes-differ")
+    except Exception as e:
+        fail("parse|result|exc=" + type(e).__name__, repr(e)[:300])
+    return fails
+
+
 def msg_class(rec):
     """distinct non-trivial class of a message case: name + per field (type, size class of its encoding)"""
     def sz(n):
@@ -393,6 +558,7 @@ def msg_class(rec):
 
 def check_codec_record(rec):
     """one value of one type letter through streamer.pack_struct / parse_struct"""
+    use("BTC")
     fails = []
     l = rec["l"]
     want_bytes = expand(rec["bytes"])
@@ -410,22 +576,28 @@ def check_codec_record(rec):
         fail("construct", "exc=" + type(e).__name__, repr(e)[:300])
         o = None
     if o is not None or l == "O":
-        try:
-            got = S.pack_struct(l, o)
-        except Exception as e:
-            fail("pack", "exc=" + type(e).__name__, repr(e)[:300])
+        r = guarded((l, "codec-pack"), S.pack_struct, l, o)
+        if r[0] == "exc":
+            fail("pack", exc_what(r), r[2])
+        elif r[0] == "ok":
+            got = r[1]
     if got is not None and got != want_bytes:
         fail("pack", "bytes-differ", {"want": want_bytes[:100].hex(), "got": bytes(got)[:100].hex()})
     for tail in ((b"",) if l == "O" else (b"", b"\xaa\x00")):
         f = io.BytesIO(want_bytes + tail)
+        r = guarded((l, "codec-parse"), S.parse_struct, l, f)
+        if r[0] == "exc":
+            fail("parse", exc_what(r), r[2])
+        if r[0] != "ok":
+            break
         try:
-            (o,) = S.parse_struct(l, f)
+            (o,) = r[1]
             g = proj(l, o)
         except Unprojectable as e:
             fail("parse", "type=" + str(e).split(":")[0], str(e)[:300])
             break
         except Exception as e:
-            fail("parse", "exc=" + type(e).__name__, repr(e)[:300])
+            fail("parse", "result|exc=" + type(e).__name__, repr(e)[:300])
             break
         if not same(p, g):
             fail("parse", "expected=%s|got=%s" % (cls(p), cls(g)), {"want": _short(p), "got": _short(g)})
